@@ -166,10 +166,10 @@ class Explorer:
     def branch(self, cond, label='') -> bool:
         if isinstance(cond, bool):
             return cond
-        cond = z3.simplify(cond)
-        if z3.is_true(cond):
+        sc = z3.simplify(cond)
+        if z3.is_true(sc):
             return True
-        if z3.is_false(cond):
+        if z3.is_false(sc):
             return False
         i = self.choose([cond, z3.Not(cond)], [label + ':T', label + ':F'])
         return i == 0
